@@ -13,6 +13,10 @@ Correspondence between the extracted Coq model (coq/theories/Redact.v, runner
         message (JSON and text rendering of the model's dict), the debug trace of the
         fallback branch, the caller's env object afterwards
   deep  property-only cases outside the model (Python recursion limit)
+  guardlog  the real Guard(policy, logger_sink=DecisionLogger(**kwargs)), one sequential evaluation per site (cold / cache hit;
+        evaluate_sync, evaluate_async, evaluate_sync under a running loop) vs the composition AuditRedact.eval_logged = (Engine.guard_eval,
+        Redact.log c (audit_fields env d) u size): the Decision (engine.eval; with and without the logger), the payload handed to the
+        sink (Engine.audit_payload), the record / drop / draws / caller-env effect (the clauses of `log`), the record's decision fields
   conc  ONE DecisionLogger shared by 2-3 threads (directly, and as the sink of one Guard used through
         evaluate_sync from several threads) whose emissions overlap in every order, and re-entered from its own
         handler / filter (a collaborator that logs a decision while a record is being emitted): the multiset of
@@ -30,6 +34,7 @@ import itertools
 import json
 import logging
 import threading
+from datetime import datetime as _datetime
 
 import lib
 
@@ -404,6 +409,20 @@ def gen_specs(rng, cover_paths, noise_paths):
 
 RATES = [0, 0.0, 0.3, 1, 1.0, "smart"]
 DRAWS = [0.0, 0.29, 0.3, 0.31, 0.999999]
+# the sampling grid (legacy rates, smart sampling x category rates) and the ill-typed specs: families (A) / (E) of the direct
+# log() cases, and the logger configurations of the Guard family (kind guardlog)
+RATE_CFGS = [{"sample_rate": r} for r in [0, 0.0, -1, -0.5, 0.3, 1, 1.0, 2, 0.999999, 1e-9, True, False]] + [{}]
+SMART_CFGS = [{"smart_sampling": True, "sample_rate": sr, **extra}
+              for sr in [0.0, 0.3, 1.0, 0.05]
+              for extra in [{}, {"category_sampling_rates": {}}, {"category_sampling_rates": None},
+                            {"category_sampling_rates": {"permit": 0.3}},
+                            {"category_sampling_rates": {"deny": 0.3, "permit_with_obligations": 0.3, "permit": 1.0}},
+                            {"category_sampling_rates": {"deny": 7, "permit": -1}}]]
+BAD_SPECS = [[{"type": "redact_fields", "fields": ["a"]}, "oops"], ["oops"], [None], [{"type": "mask_fields", "fields": 5}],
+             [{"type": "redact_fields", "fields": ["b.c"]}, {"type": "redact_fields", "fields": True}, {"type": "redact_fields", "fields": ["a"]}],
+             [{"type": "mask_fields", "fields": ["a"]}, 7], [[1, 2]], [{"type": "mask_fields", "fields": "ab"}],
+             [{"type": "mask_fields", "fields": {"a": 1, "b.c": 2}}], [{"type": "redact_fields", "fields": [1, None, True, 2.5]}],
+             [{"type": "unknown", "fields": 5}], [{"type": "mask_fields", "fields": 0}], [{"type": "mask_fields", "fields": ""}]]
 
 
 def sampling_kwargs(rng, which):
@@ -452,14 +471,7 @@ def gen_log_cases(chk):
                   {"decision": "permit", "allowed": True, "obligations": [{}]},
                   {"decision": "permit", "allowed": True, "obligations": [{"type": "unknown", "on": None}]},
                   {"decision": "deny", "allowed": True}, {"decision": "permit", "allowed": False}, {"allowed": True}, {}]
-    rate_cfgs = [{"sample_rate": r} for r in [0, 0.0, -1, -0.5, 0.3, 1, 1.0, 2, 0.999999, 1e-9, True, False]] + [{}]
-    smart_cfgs = [{"smart_sampling": True, "sample_rate": sr, **extra}
-                  for sr in [0.0, 0.3, 1.0, 0.05]
-                  for extra in [{}, {"category_sampling_rates": {}}, {"category_sampling_rates": None},
-                                {"category_sampling_rates": {"permit": 0.3}},
-                                {"category_sampling_rates": {"deny": 0.3, "permit_with_obligations": 0.3, "permit": 1.0}},
-                                {"category_sampling_rates": {"deny": 7, "permit": -1}}]]
-    for cfg in rate_cfgs + smart_cfgs:
+    for cfg in copy.deepcopy(RATE_CFGS + SMART_CFGS):
         for u in DRAWS + [0.5, 1e-12, 0.30000000000000004, 0.049999, 0.05]:
             for df in dec_fields:
                 for asj in ([False, True] if u in (0.0, 0.3) else [bool(len(out) % 2)]):
@@ -505,12 +517,7 @@ def gen_log_cases(chk):
         out.append({"kind": "log", "fam": "size-arg", "kwargs": {"max_env_bytes": mb, "as_json": True},
                     "payload": {"decision": "permit", "allowed": True, "env": {"k": "é" * 20}}, "u": 0.5})
     # ---- (E) ill-typed specs: the fallback branch
-    bad_specs = [[{"type": "redact_fields", "fields": ["a"]}, "oops"], ["oops"], [None], [{"type": "mask_fields", "fields": 5}],
-                 [{"type": "redact_fields", "fields": ["b.c"]}, {"type": "redact_fields", "fields": True}, {"type": "redact_fields", "fields": ["a"]}],
-                 [{"type": "mask_fields", "fields": ["a"]}, 7], [[1, 2]], [{"type": "mask_fields", "fields": "ab"}],
-                 [{"type": "mask_fields", "fields": {"a": 1, "b.c": 2}}], [{"type": "redact_fields", "fields": [1, None, True, 2.5]}],
-                 [{"type": "unknown", "fields": 5}], [{"type": "mask_fields", "fields": 0}], [{"type": "mask_fields", "fields": ""}]]
-    for spec in bad_specs:
+    for spec in copy.deepcopy(BAD_SPECS):
         for ip in [False, True]:
             for asj in [False, True]:
                 for mb in ["omit", 5]:
@@ -736,13 +743,17 @@ def _rate_view(kwargs):
     return float(r)
 
 
-def check_log(chk, cases, cap):
+def check_log(chk, cases, cap, impl=None):
+    """impl: where the implementation's observation of a case comes from (default: a direct DecisionLogger(**kwargs).log(payload);
+    kind guardlog: the call the real Guard made on its DecisionLogger, observed by check_guardlog); c["where"] is appended to
+    every verdict text"""
+    ck = max(150, -(-len(cases) // 8))          # the lines are independent: up to 8 runner processes side by side
     kw_noenvmax = [lib.model_call("redact.redacted", c["kwargs"], c["payload"]) for c in cases]
-    red = [lib.dec(a) for a in lib.run_model("redact", kw_noenvmax)]
+    red = [lib.dec(a) for a in lib.run_model("redact", kw_noenvmax, chunk=ck)]
     sizes = [json_size(r[1]) if r[0] == "ok" else None for r in red]
     ans = lib.run_model("redact", [lib.model_call("redact.log", c["kwargs"], c["payload"], float(c["u"]), sz)
-                                   for c, sz in zip(cases, sizes)])
-    hyp = lib.run_model("redact", [lib.model_call("redact.hyp", c["kwargs"], c["payload"], c.get("secret", TOKEN)) for c in cases])
+                                   for c, sz in zip(cases, sizes)], chunk=ck)
+    hyp = lib.run_model("redact", [lib.model_call("redact.hyp", c["kwargs"], c["payload"], c.get("secret", TOKEN)) for c in cases], chunk=ck)
     for c, a, h, r, sz in zip(cases, ans, hyp, red, sizes):
         m, h = lib.dec(a), lib.dec(h)
         chk.count("fam:" + c.get("fam", "?"))
@@ -758,11 +769,14 @@ def check_log(chk, cases, cap):
             except Exception:  # noqa: BLE001
                 chk.count("skipped-out-of-domain:not-json-serialisable-with-as_json")
                 continue
-        got = impl_log(c, cap)
+        got = impl_log(c, cap) if impl is None else impl(c, cap)
+        where = c.get("where", "")
         token = c.get("secret", TOKEN)
         secret_in_env = text_occurs(token, c["payload"].get("env"))
         emitted = bool(got["msgs"])
         key = ("log", repr(kw), repr(c["payload"]), c["u"])
+        if c.get("kind") == "guardlog":
+            key += ("guard", repr(c["policy"]), c.get("api"), bool(c.get("cache")), c.get("site"), bool(c.get("strict")), c.get("level"))
         chk.mark(key, emitted and (secret_in_env or "max_env_bytes" in kw or in_place))
         chk.count("log:" + ("emitted" if emitted else "dropped") + (":json" if as_json else ":text"))
         chk.count("log:in_place=" + str(in_place))
@@ -777,10 +791,10 @@ def check_log(chk, cases, cap):
         chk.sample({"kwargs": kw, "payload": c["payload"], "u": c["u"], "impl_msgs": got["msgs"], "model": m,
                     "secret_hyps": h, "caller_env_after": got["payload_after"].get("env")}, every=1499)
         if "raised" in got:
-            chk.violation("DecisionLogger.log raised " + got["raised"], c, impl=got["raised"], model=m)
+            chk.violation("DecisionLogger.log raised " + got["raised"] + where, c, impl=got["raised"], model=m)
             continue
         if len(got["msgs"]) > 1:
-            chk.violation("more than one record emitted for one decision", c, impl=got["msgs"], model=m)
+            chk.violation("more than one record emitted for one decision" + where, c, impl=got["msgs"], model=m)
             continue
         msg = got["msgs"][0] if emitted else None
         viol = None
@@ -842,7 +856,7 @@ def check_log(chk, cases, cap):
                 if want[want.index("env") + 3:-1] not in msg:
                     viol = "redactions=[] was given but the env was not emitted unchanged (c19_priority)"
         if viol:
-            chk.violation(viol, c, impl={"msgs": got["msgs"], "env_after": env_after, "draws": got["draws"]}, model=m)
+            chk.violation(viol + where, c, impl={"msgs": got["msgs"], "env_after": env_after, "draws": got["draws"]}, model=m)
             continue
         # ---- correspondence with the model on every observable
         diff = None
@@ -866,7 +880,7 @@ def check_log(chk, cases, cap):
             elif got["env_same_object"] is not True or got["top_ids_same"] is not True:
                 diff = "caller's payload['env'] / its top-level children were rebound"
         if diff:
-            chk.corr_break("DecisionLogger.log vs Redact.log: " + diff, c,
+            chk.corr_break("DecisionLogger.log vs Redact.log: " + diff + where, c,
                            impl={"msgs": got["msgs"], "draws": got["draws"], "debug": got["debug"], "env_after": env_after},
                            model=m, theorems=["c19_secret_gone", "c19_caller_env_untouched", "c19_inplace_caller_account", "c19_priority",
                                               "c19_sampling_rate0", "c19_sampling_rate1", "c19_sampling_smart_default", "c19_size_bound"])
@@ -1502,6 +1516,653 @@ def gen_conc_cases(chk):
     return out
 
 
+# --------------------------------------------------------------------------
+# kind "guardlog": a Guard whose logger_sink is a DecisionLogger -- the C11 x C19 composition (coq/theories/AuditRedact.v)
+# --------------------------------------------------------------------------
+# AuditRedact.eval_logged = (answer of Engine.guard_eval, Redact.log c (audit_fields env d) u size): ONE sequential evaluation of
+# the real Guard(policy, logger_sink=DecisionLogger(**kwargs)) per site (cold; with a decision cache also the hit), through
+# evaluate_sync / evaluate_async / evaluate_sync under a running loop.  The sink IS a DecisionLogger; its bound `log` is wrapped
+# on the instance by a recorder that copies the payload the Guard hands over, delegates to the real method and notes the draws
+# and the records that reached the destination `logging` logger meanwhile.  Judged:
+#   (i)   the Decision: vs Engine.guard_eval (engine.eval) -> corr_break (C11 / C01 own those verdicts); vs the same Guard
+#         WITHOUT a sink -> violation (c19_logging_inert);
+#   (ii)  the payload handed over: its decision fields are the returned Decision's -> violation (c11_audit_agrees); it is
+#         Engine.audit_payload (build_env req) (guard_eval ...) -> corr_break (the bridge, c19_bridge_payload_is_log_argument);
+#         that payload then goes to Redact.log exactly as in the direct family (check_log: same configuration encoding, scripted
+#         draw, Python-supplied size) and the record / drop / draws / caller-env effect are judged by the clauses of check_log;
+#   (iii) the record: its decision fields are the returned Decision's, same keys as the payload -> violation
+#         (c19_logged_record_agrees_and_is_redacted, c11_logged_rule_id_truthful); the default paths / pairwise parting explicit
+#         paths read their placeholder in a record emitted in full -> violation (c19_logged_default_redactions,
+#         c19_logged_placeholders_at_paths); in copy mode the application's request objects are what they were -> violation
+#         (c19_caller_env_untouched_by_logging).
+GL_FIELDS = ["decision", "allowed", "rule_id", "policy_id", "reason", "obligations"]
+GL_THEOREMS = ["c19_logged_record_agrees_and_is_redacted", "c19_logging_inert", "c19_bridge_payload_is_log_argument",
+               "c19_denies_and_obliged_permits_always_logged", "c19_caller_env_untouched_by_logging", "c11_logged_rule_id_truthful"]
+
+
+def _gl_rule(rid, effect, action, obligations=None):
+    r = {"id": rid, "effect": effect, "actions": [action], "resource": {"type": "doc"}}
+    if obligations is not None:
+        r["obligations"] = obligations
+    return r
+
+
+# AuditRedact.ar_policy
+GL_AR_POLICY = {"id": "p1", "algorithm": "deny-overrides", "rules": [_gl_rule("r1", "permit", "read", [{"type": "require_mfa"}])]}
+_GL_ON_DENY = [{"type": "http_challenge", "on": "deny", "attrs": {"scheme": "Basic"}}]
+GL_DOC_POLICY = {"id": "docs", "algorithm": "deny-overrides", "rules": [
+    _gl_rule("r-read", "permit", "read"), _gl_rule("r-del", "deny", "delete"),
+    _gl_rule("r-edit", "permit", "edit", [{"type": "audit_note"}]), _gl_rule("r-sign", "permit", "sign", [{"type": "require_mfa"}]),
+    _gl_rule("r-share", "permit", "share", _GL_ON_DENY), _gl_rule("r-pub", "permit", "publish", [{"type": "x", "on": "deny"}, {"on": "deny"}]),
+    _gl_rule("r-purge", "deny", "purge", [{"type": "http_challenge", "on": "deny"}])]}
+GL_SET_POLICY = {"id": "root", "algorithm": "deny-overrides", "policies": [
+    {"id": "readers", "algorithm": "permit-overrides", "rules": [
+        _gl_rule("rd-read", "permit", "read"), _gl_rule("rd-sign", "permit", "sign", [{"type": "require_mfa"}]),
+        _gl_rule("rd-edit", "permit", "edit", [{"type": "audit_note"}])]},
+    {"id": "guards", "algorithm": "first-applicable", "rules": [
+        _gl_rule("gd-del", "deny", "delete"), _gl_rule("gd-share", "permit", "share", _GL_ON_DENY),
+        _gl_rule("gd-purge", "deny", "purge", [{"type": "http_challenge", "on": "deny"}]),
+        _gl_rule("gd-pub", "permit", "publish", [{"type": "x", "on": "deny"}, {"on": "deny"}])]}]}
+GL_NESTED_POLICY = {"id": "top", "algorithm": "first-applicable", "policies": [
+    {"id": "inner", "algorithm": "deny-overrides", "policies": [copy.deepcopy(GL_DOC_POLICY)]},
+    {"id": "fallback", "algorithm": "deny-overrides", "rules": [_gl_rule("fb-zap", "deny", "zap")]}]}
+# decision classes by (action, mfa): plain permit, explicit deny, permit + unknown obligation, permit + met MFA, refused MFA
+# (obligation_failed), permit whose obligations all target deny (two shapes), deny with obligations, no rule
+GL_CLASSES = [("read", True), ("delete", False), ("edit", False), ("sign", True), ("sign", False), ("share", True), ("publish", False),
+              ("purge", True), ("none", False)]
+GL_ON_DENY_ACTIONS = ("share", "publish")
+GL_ELSEWHERE = ["context.headers.x-api-key", "context.body.card.number", "subject.attrs.ssn", "resource.attrs.owner.token",
+                "context.session[0].jwt", "subject.attrs.keys[1]", "context.query.access_token"]
+GL_REDACT = [
+    {"use_default_redactions": True}, {"use_default_redactions": True, "redact_in_place": True}, {},
+    {"redactions": None, "use_default_redactions": 1}, {"redactions": [], "use_default_redactions": True},
+    {"use_default_redactions": True, "as_json": True}, {"use_default_redactions": True, "redact_in_place": True, "as_json": True},
+    {"redactions": [{"type": "redact_fields", "fields": ["context.headers.authorization", "subject.attrs.password", "context.cookies"]}]},
+    {"redactions": [{"type": "mask_fields", "fields": ["context.headers", "subject.attrs", "resource.attrs", "context.ip"], "placeholder": "█"}],
+     "redact_in_place": True, "as_json": True},
+    {"redactions": [{"type": "redact_fields", "fields": ["subject", "context", "resource.attrs.secret"]}], "as_json": True},
+]
+_GL_DEFAULTS = []
+
+
+def gl_default_ops():
+    """[(path, placeholder)] of the default redaction set, read from the model (check_defaults ties it to the implementation's)"""
+    if not _GL_DEFAULTS:
+        m = lib.dec(lib.run_model("redact", [lib.model_call("redact.defaults")])[0])
+        for ob in m:
+            for p in ob["fields"]:
+                _GL_DEFAULTS.append((p, ob.get("placeholder", "***") if ob["type"] == "mask_fields" else "[REDACTED]"))
+    return list(_GL_DEFAULTS)
+
+
+def gl_req(action, mfa=False, rid="1"):
+    return {"subject": {"id": "u1", "roles": ["staff"], "attrs": {"dept": "eng"}}, "action": action,
+            "resource": {"type": "doc", "id": rid, "attrs": {"k": 1}}, "context": {"mfa": True} if mfa else {}}
+
+
+def gl_canon_req(req):
+    """the request as the application's objects hold it (Subject / Action / Resource / Context)"""
+    s, r = req.get("subject") or {}, req.get("resource") or {}
+    return {"subject": {"id": s.get("id"), "roles": list(s.get("roles") or []), "attrs": s.get("attrs") or {}}, "action": req.get("action"),
+            "resource": {"type": r.get("type"), "id": r.get("id"), "attrs": r.get("attrs") or {}}, "context": req.get("context") or {}}
+
+
+def _gl_req_set(req, path, value):
+    """write value at an env path of the request (subject.attrs.*, resource.attrs.*, context.*): keys and name[i] segments"""
+    cur = req
+    parts = path.split(".")
+    for i, p in enumerate(parts):
+        last = i == len(parts) - 1
+        if p.endswith("]") and "[" in p:
+            k, ix = p[:-1].split("[", 1)
+            ix = int(ix)
+            if not isinstance(cur.get(k), list):
+                cur[k] = []
+            while len(cur[k]) <= ix:
+                cur[k].append({})
+            if last:
+                cur[k][ix] = value
+                return
+            if not isinstance(cur[k][ix], dict):
+                cur[k][ix] = {}
+            cur = cur[k][ix]
+        else:
+            if last:
+                cur[p] = value
+                return
+            if not isinstance(cur.get(p), dict):
+                cur[p] = {}
+            cur = cur[p]
+
+
+def gl_secret_value(rng, token):
+    form = rng.choice(["str", "str", "bearer", "dict", "list", "nonascii"])
+    return {"str": token, "bearer": "Bearer " + token, "dict": {"sid": token, "n": 1}, "list": [token, "x"],
+            "nonascii": "clé " + token + " ✓"}[form]
+
+
+def gl_decorate(rng, req, token, n_default, n_else=0):
+    """the request with the secret at n_default of the default redaction paths and at n_else other places; returns (request,
+    the other places)"""
+    req = copy.deepcopy(req)
+    for k in ("subject", "resource"):
+        if not isinstance(req[k].get("attrs"), dict):
+            req[k]["attrs"] = {}
+    if not isinstance(req.get("context"), dict):
+        req["context"] = {}
+    dpaths = [p for p, _ph in gl_default_ops()]
+    for p in rng.sample(dpaths, min(n_default, len(dpaths))):
+        _gl_req_set(req, p, gl_secret_value(rng, token))
+        if p == "context.headers.authorization":
+            req["context"]["headers"].setdefault("accept", "text/html")
+    others = rng.sample(GL_ELSEWHERE, n_else)
+    for p in others:
+        _gl_req_set(req, p, gl_secret_value(rng, token))
+    return req, others
+
+
+def gen_guardlog_cases(chk):
+    import enggen
+    import polgen
+
+    rng = chk.rng
+    thorough = chk.tier == "thorough"
+    out = []
+
+    def add(fam, policy, req, kwargs, token, **extra):
+        i = len(out)
+        c = {"kind": "guardlog", "fam": "guardlog-" + fam, "policy": policy, "req": req, "strict": False, "kwargs": kwargs,
+             "u": rng.choice(DRAWS + [0.5]), "api": "sync-in-loop" if i % 7 == 6 else ("async" if i % 2 else "sync"),
+             "cache": bool((i // 2) % 2), "secret": token}
+        if i % 11 == 5:
+            c["level"] = logging.WARNING
+        elif i % 11 == 6:
+            c["level"] = 25
+        c.update(extra)
+        out.append(c)
+        return c
+
+    # ---- (a) decision classes x the sampling grid (the direct family's (A)), secrets at the default paths
+    #      (a few requests per class, shared by the configurations: the sink-less reference run is shared too)
+    i = 0
+    for pol in (GL_DOC_POLICY, GL_SET_POLICY, GL_NESTED_POLICY):
+        for action, mfa in GL_CLASSES:
+            i += 1
+            token = TOKEN + str(i % 7)
+            variants = [gl_decorate(rng, gl_req(action, mfa, rid=rng.choice(["1", "d-7"])), token, rng.choice([1, 2, 3]))[0]
+                        for _ in range(4 if thorough else 2)]
+            for cfg in RATE_CFGS + SMART_CFGS:
+                i += 1
+                smart_default = bool(cfg.get("smart_sampling")) and not cfg.get("category_sampling_rates")
+                if not thorough and pol is GL_NESTED_POLICY and not (action in GL_ON_DENY_ACTIONS and smart_default):
+                    continue
+                if not thorough and not (action in GL_ON_DENY_ACTIONS and smart_default) and i % 4 != chk.seed % 4:
+                    continue
+                for _ in range(3 if thorough else 1):
+                    req = copy.deepcopy(rng.choice(variants))
+                    red = rng.choice(GL_REDACT[:2] + GL_REDACT[5:7]) if rng.random() < 0.6 else rng.choice(GL_REDACT)
+                    add("sampling", pol, req, {**copy.deepcopy(cfg), **copy.deepcopy(red)}, token)
+    # ---- (b) the priority grid (the direct family's (B)) on the request of AuditRedact.ar_example and on a set
+    n = 0
+    for red in ["omit", None, [], [{"type": "mask_fields", "fields": ["subject.id"]}],
+                [{"type": "redact_fields", "fields": ["subject.attrs.password"]}], [{"type": "nothing"}]]:
+        for usedef in ["omit", False, True, 1, 0]:
+            for ip in [False, True]:
+                for asj in [False, True]:
+                    n += 1
+                    if not thorough and n % 3 != chk.seed % 3:
+                        continue
+                    kw = {"as_json": asj, "redact_in_place": ip}
+                    if red != "omit":
+                        kw["redactions"] = copy.deepcopy(red)
+                    if usedef != "omit":
+                        kw["use_default_redactions"] = usedef
+                    for pol, act in ([(GL_AR_POLICY, "read"), (GL_SET_POLICY, "delete")] if thorough else [(GL_AR_POLICY, "read") if n % 2 else (GL_SET_POLICY, "sign")]):
+                        req = gl_req(act, mfa=bool(n % 4))
+                        req["subject"]["attrs"].update({"password": TOKEN, "email": "e@x"})
+                        req["context"].update({"headers": {"authorization": "Bearer " + TOKEN, "accept": "text/html"}, "ip": "10.0.0.1",
+                                               "cookies": {"s": TOKEN}})
+                        req["resource"]["attrs"]["secret"] = [TOKEN]
+                        add("priority", pol, req, kw, TOKEN, u=0.0)
+    # ---- (c) size bounds around the exact size of the redacted env (the direct family's (D)), ASCII and non-ASCII requests
+    size_reqs = []
+    for attrs, ctx in [({"dept": "eng"}, {"mfa": True}), ({"name": "é" * 12, "password": "p" * 30}, {"note": "日本語", "mfa": True}),
+                       ({}, {}), ({"ключ": "значение", "e": "\U0001f600"}, {"headers": {"authorization": "Bearer " + TOKEN}, "ip": "::1"})]:
+        r = gl_req("sign", mfa=bool(ctx.get("mfa")))
+        r["subject"]["attrs"], r["context"] = attrs, ctx
+        size_reqs.append(r)
+    n = 0
+    for r in size_reqs:
+        for delta in [-2, -1, 0, 1, 2]:
+            for red in [None, "default", [{"type": "redact_fields", "fields": ["subject.attrs.password", "context.headers.authorization"]}]]:
+                for asj in [False, True]:
+                    n += 1
+                    if not thorough and n % 2 != chk.seed % 2:
+                        continue
+                    kw = {"as_json": asj, "redact_in_place": bool(n % 3 == 0)}
+                    if red == "default":
+                        kw["use_default_redactions"] = True
+                    elif red is not None:
+                        kw["redactions"] = copy.deepcopy(red)
+                    add("size", GL_DOC_POLICY if n % 2 else GL_SET_POLICY, copy.deepcopy(r), kw, TOKEN, bound_delta=delta, u=0.5)
+    for mb in [0, -1, None, True, 1.0, "10", 10**6, 1]:
+        add("size-arg", GL_AR_POLICY, gl_decorate(rng, gl_req("read", True), TOKEN, 2)[0], {"max_env_bytes": mb, "as_json": True,
+                                                                                             "use_default_redactions": True}, TOKEN, u=0.5)
+    # ---- (d) ill-typed specs: the fail-closed branch under a Guard (the direct family's (E))
+    for k, spec in enumerate(BAD_SPECS):
+        for ip in [False, True]:
+            kw = {"redactions": copy.deepcopy(spec), "redact_in_place": ip, "as_json": bool((k + ip) % 2)}
+            if k % 3 == 0:
+                kw["max_env_bytes"] = 5
+            req = gl_req(GL_CLASSES[k % len(GL_CLASSES)][0], True)
+            req["context"].update({"a": TOKEN, "b": {"c": "x" + TOKEN, "d": 1}})
+            add("illtyped-spec", GL_DOC_POLICY, req, kw, TOKEN, u=0.1)
+    # ---- (e) random: enggen / polgen policies and requests, secrets at default paths and elsewhere, specs / flags / sampling / bounds
+    pool = [p for _n, p in polgen.child_pool()]
+    pats = [p for p in polgen.all_patterns(2)]
+    for k in range(5000 if thorough else 210):
+        token = TOKEN + str(k % 7)
+        r = rng.random()
+        if r < 0.35:
+            pol = enggen.rich_policy(rng)
+        elif r < 0.55:
+            pol = {"id": "set%d" % k, "policies": [copy.deepcopy(rng.choice(pool)) for _ in range(rng.choice([1, 2, 2, 3]))],
+                   "algorithm": rng.choice(polgen.ALGOS)}
+        elif r < 0.75:
+            pol = polgen.pattern_policy(rng.choice(pats), rng.choice(polgen.ALGOS), with_obl=rng.random() < 0.6)
+            pol["id"] = "pat%d" % k
+        else:
+            pol = copy.deepcopy(rng.choice([GL_DOC_POLICY, GL_SET_POLICY, GL_NESTED_POLICY, GL_AR_POLICY]))
+        if r < 0.75:
+            base = enggen.requests(rng, 1)[0] if rng.random() < 0.5 else copy.deepcopy(polgen.BASE_REQ)
+            if any(isinstance(v, _datetime) for v in (base.get("context") or {}).values()) and rng.random() < 0.7:
+                base["context"] = {"mfa": True, "n": 5}
+        else:
+            base = gl_req(*rng.choice(GL_CLASSES))
+        req, others = gl_decorate(rng, base, token, rng.choice([0, 1, 1, 2, 4]), rng.choice([0, 0, 1, 2]))
+        env = polgen.env_of_req(req)
+        covers = list(others)
+        if rng.random() < 0.3:       # a planted secret of the direct family's shapes under the context
+            full, cov = plant(rng, req["context"], token)
+            covers.append("context." + cov)
+            env = polgen.env_of_req(req)
+        noise = [gen_path(rng, env) for _ in range(rng.choice([0, 1, 2]))]
+        mode = rng.random()
+        kw = {}
+        if mode < 0.45:
+            kw["use_default_redactions"] = rng.choice([True, True, True, 1])
+        elif mode < 0.8:
+            dflt = [p for p, _ph in gl_default_ops()]
+            kw["redactions"] = gen_specs(rng, covers + (rng.sample(dflt, rng.randint(1, len(dflt))) if rng.random() < 0.7 else []), noise)
+            if rng.random() < 0.3:
+                kw["use_default_redactions"] = True
+        elif mode < 0.88:
+            kw["redactions"] = []
+        if rng.random() < 0.5:
+            kw["redact_in_place"] = rng.choice([True, True, False, 1])
+        if rng.random() < 0.6:
+            kw["as_json"] = rng.choice([True, True, False])
+        kw.update(copy.deepcopy(sampling_kwargs(rng, rng.choice(["omit", 1.0, 1, 0.3, "smart", "smart", "smart", 0.999999, 0]))))
+        c = add("random", pol, req, kw, token, strict=rng.random() < 0.2)
+        if rng.random() < 0.3:
+            c["bound_delta"] = rng.choice([-3, -1, 0, 0, 1, 5, -10**6, 10**6])
+    return out
+
+
+_GL_CACHE_CLS = []
+
+
+def _gl_cache():
+    if not _GL_CACHE_CLS:
+        from rbacx.core.cache import DefaultInMemoryCache
+
+        class _CountingCache(DefaultInMemoryCache):
+            hits = 0
+
+            def get(self, key):
+                v = super().get(key)
+                if v is not None:
+                    self.hits += 1
+                return v
+
+        _GL_CACHE_CLS.append(_CountingCache)
+    return _GL_CACHE_CLS[0](64)
+
+
+def impl_guardlog(case, cap, with_logger=True):
+    """the real Guard (cold, and once more when it has a cache) through the API of the case; with_logger: its sink is a real
+    DecisionLogger whose bound log is recorded"""
+    import asyncio
+
+    import rbacx.logging.decision_logger as dlmod
+    from rbacx.core.engine import Guard
+    from rbacx.core.model import Action, Context, Resource, Subject
+
+    level = case.get("level", logging.INFO)
+    fake = _ScriptedRandom(case["u"])
+    calls = []
+    out = {"evals": [], "engine_errors": [], "hits": 0}
+    eng = logging.getLogger("rbacx.engine")
+    eng_saved = (eng.handlers[:], eng.propagate)
+    eng_cap = _Capture()
+    eng.handlers[:] = [eng_cap]
+    eng.propagate = False
+    real = dlmod.random
+    dlmod.random = fake
+    cap.records.clear()
+    try:
+        kw = {}
+        if case.get("cache"):
+            kw["cache"] = _gl_cache()
+        if case.get("strict"):
+            kw["strict_types"] = True
+        if with_logger:
+            try:
+                dl = dlmod.DecisionLogger(logger_name=_LOGGER_NAME, level=level, **copy.deepcopy(case["kwargs"]))
+            except Exception as e:  # noqa: BLE001
+                out["ctor_raised"] = type(e).__name__ + ": " + str(e)[:80]
+                return out
+            inner = dl.log
+
+            def recording_log(payload):
+                env_obj = payload.get("env") if isinstance(payload, dict) else None
+                ent = {"before": copy.deepcopy(payload), "obj": payload, "env_obj": env_obj, "ids": _ids(env_obj),
+                       "d0": fake.calls, "n0": len(cap.records)}
+                calls.append(ent)
+                try:
+                    return inner(payload)
+                except RecursionError as e:
+                    ent["raised"] = type(e).__name__
+                    raise
+                except Exception as e:  # noqa: BLE001
+                    ent["raised"] = type(e).__name__ + ": " + str(e)[:80]
+                    raise
+                finally:
+                    ent["draws"] = fake.calls - ent["d0"]
+                    ent["records"] = list(cap.records[ent["n0"]:])
+
+            dl.log = recording_log          # the sink IS the DecisionLogger; the Guard looks `log` up on it
+            kw["logger_sink"] = dl
+        g = Guard(copy.deepcopy(case["policy"]), **kw)
+
+        def objs():
+            r = gl_canon_req(copy.deepcopy(case["req"]))
+            return (Subject(id=r["subject"]["id"], roles=r["subject"]["roles"], attrs=r["subject"]["attrs"]), Action(r["action"]),
+                    Resource(type=r["resource"]["type"], id=r["resource"]["id"], attrs=r["resource"]["attrs"]), Context(attrs=r["context"]))
+
+        def view(o):
+            s, a, r, c = o
+            return {"subject": {"id": s.id, "roles": s.roles, "attrs": s.attrs}, "action": a.name,
+                    "resource": {"type": r.type, "id": r.id, "attrs": r.attrs}, "context": c.attrs}
+
+        def dec(d):
+            return {"allowed": d.allowed, "effect": d.effect, "obligations": d.obligations, "challenge": d.challenge,
+                    "rule_id": d.rule_id, "policy_id": d.policy_id, "reason": d.reason}
+
+        api = case.get("api", "sync")
+        n = 2 if case.get("cache") else 1
+
+        def done(o, k0, d):
+            out["evals"].append({"decision": d, "req_after": view(o), "calls": calls[k0:]})
+
+        async def go():
+            for _ in range(n):
+                o, k0 = objs(), len(calls)
+                try:
+                    # async: awaited in this loop; sync-in-loop: evaluate_sync called while this loop runs (helper thread)
+                    d = dec(await g.evaluate_async(*o)) if api == "async" else dec(g.evaluate_sync(*o))
+                except Exception as e:  # noqa: BLE001
+                    d = ["Raise", type(e).__name__]
+                done(o, k0, d)
+
+        if api == "sync":
+            for _ in range(n):
+                o, k0 = objs(), len(calls)
+                try:
+                    d = dec(g.evaluate_sync(*o))
+                except Exception as e:  # noqa: BLE001
+                    d = ["Raise", type(e).__name__]
+                done(o, k0, d)
+        else:
+            asyncio.run(go())
+        out["hits"] = getattr(kw.get("cache"), "hits", 0)
+    finally:
+        dlmod.random = real
+        eng.handlers[:], eng.propagate = eng_saved
+    out["engine_errors"] = [m for _lv, m in eng_cap.records]
+    return out
+
+
+_GL_BASE = {}
+
+
+def gl_baseline(case, cap):
+    """the Decisions of the same Guard without a sink (same policy, request, type mode, cache, API)"""
+    key = repr((case["policy"], case["req"], bool(case.get("strict")), bool(case.get("cache")), case.get("api", "sync")))
+    if key not in _GL_BASE:
+        if len(_GL_BASE) > 20000:
+            _GL_BASE.clear()
+        _GL_BASE[key] = [e["decision"] for e in impl_guardlog(case, cap, with_logger=False)["evals"]]
+    return _GL_BASE[key]
+
+
+def gl_model_payload(case, d):
+    """Engine.audit_payload (build_env strict req None) d, transcribed (EngineProofs.v:717, Engine.v build_env = polgen.env_of_req)"""
+    import polgen
+
+    if not isinstance(d, dict):
+        return None
+    return {"env": polgen.env_of_req(case["req"], bool(case.get("strict"))), "decision": d["effect"], "allowed": d["allowed"],
+            "rule_id": d["rule_id"], "policy_id": d["policy_id"], "reason": d["reason"], "obligations": d["obligations"]}
+
+
+def gl_fields_of(d):
+    return {"decision": d["effect"], "allowed": d["allowed"], "rule_id": d["rule_id"], "policy_id": d["policy_id"],
+            "reason": d["reason"], "obligations": d["obligations"]}
+
+
+def gl_parse_record(msg, as_json):
+    """the emitted record as a dict, None when the rendering cannot be read back (text rendering of non-literal values)"""
+    try:
+        if as_json:
+            rec = json.loads(msg)
+        else:
+            import ast
+
+            if not msg.startswith("decision "):
+                return None
+            rec = ast.literal_eval(msg[len("decision "):])
+    except Exception:  # noqa: BLE001
+        return None
+    return rec if isinstance(rec, dict) else None
+
+
+def gl_simple_ops(specs):
+    """[(keys, placeholder)] when the explicit specs are well typed, their paths plain dotted keys that pairwise part at a dict key
+    (a transcription of AuditRedact.paths_disjoint restricted to key-only paths); None otherwise"""
+    ops = []
+    for ob in specs:
+        if not isinstance(ob, dict):
+            return None
+        t = ob.get("type")
+        if t not in ("mask_fields", "redact_fields"):
+            if isinstance(t, (str, type(None))):
+                continue
+            return None
+        fields = ob.get("fields", [])
+        if not isinstance(fields, list):
+            return None
+        ph = ob.get("placeholder", "***") if t == "mask_fields" else "[REDACTED]"
+        if isinstance(ph, (list, dict)):
+            return None
+        for p in fields:
+            if not isinstance(p, str) or not p or any((not s) or "[" in s or "]" in s or s != s.strip() for s in p.split(".")):
+                return None
+            ops.append((p.split("."), ph))
+    for a in range(len(ops)):
+        for b in range(a + 1, len(ops)):
+            p, q = ops[a][0], ops[b][0]
+            if not any(x != y for x, y in zip(p, q)):
+                return None          # one a prefix of (or equal to) the other: outside c19_logged_placeholders_at_paths
+    return ops
+
+
+def _gl_get(obj, keys):
+    cur = obj
+    for k in keys:
+        if not isinstance(cur, dict) or k not in cur:
+            return ("miss",)
+        cur = cur[k]
+    return ("at", cur)
+
+
+def check_guardlog(chk, cases, cap):
+    if not cases:
+        return
+    md = [lib.dec(a) for a in lib.run_model("engine", [lib.model_call("engine.eval", bool(c.get("strict")), c["policy"], c["req"], None, None)
+                                                         for c in cases], chunk=max(100, -(-len(cases) // 8)))]
+    mps = [gl_model_payload(c, d) for c, d in zip(cases, md)]
+    # size bounds relative to the exact size of the model's redacted env of the model's payload
+    tmp = []
+    for c, mp in zip(cases, mps):
+        if "bound_delta" in c:
+            delta = c.pop("bound_delta")
+            if mp is not None:
+                tmp.append({"kind": "log", "kwargs": c["kwargs"], "payload": mp, "bound_delta": delta})   # kwargs shared: lands in the case
+    resolve_bounds(tmp)
+    views, store = [], {}
+    for c, d_m, mp in zip(cases, md, mps):
+        kw = c["kwargs"]
+        as_json = bool(kw.get("as_json", False))
+        in_place = bool(kw.get("redact_in_place", False))
+        level = c.get("level", logging.INFO)
+        api = c.get("api", "sync")
+        chk.count("guardlog:cases")
+        if d_m in (["Ood"], ["UnknownRelQuery"]) or (isinstance(d_m, list) and d_m and d_m[0] not in ("Raise",)):
+            chk.count("skipped-out-of-domain:guardlog:engine-model")
+            continue
+        got = impl_guardlog(c, cap)
+        if "ctor_raised" in got:
+            chk.count("guardlog:skipped:DecisionLogger-constructor-raised")
+            continue
+        base = gl_baseline(c, cap)
+        chk.count("guardlog:api=" + api + (":cache" if c.get("cache") else ":no-cache"))
+        chk.count("guardlog:policy=" + ("set" if "policies" in c["policy"] else "single"))
+        if c.get("cache"):
+            chk.count("guardlog:cache-hit-observed" if got["hits"] else "guardlog:cache-configured-but-no-hit")
+        reported = False
+        for k, e in enumerate(got["evals"]):
+            site = "cold" if k == 0 else "cache hit"
+            where = " [Guard.%s, %s, logger_sink=DecisionLogger]" % (
+                {"sync": "evaluate_sync", "async": "evaluate_async", "sync-in-loop": "evaluate_sync under a running loop"}[api], site)
+            d = e["decision"]
+            case_v = {**c, "site": site}
+            # ---- (i) the Decision: the logger is inert; the engine model
+            if k >= len(base) or not same(base[k], d):
+                chk.violation("the Decision of a Guard with a DecisionLogger attached differs from the Decision of the same Guard without "
+                              "a sink (c19_logging_inert)" + where, case_v, impl={"with_logger": d, "without": base[k] if k < len(base) else None},
+                              model=d_m)
+                reported = True
+                continue
+            dm = d_m if isinstance(d_m, dict) else ["Raise"]
+            dd = d if isinstance(d, dict) else ["Raise"]
+            if not same(dd, dm):
+                if not reported:
+                    chk.corr_break("Decision differs from the model Engine.guard_eval" + where, case_v, impl=d, model=d_m,
+                                   theorems=["c11_rule_id_truthful", "c11_no_rule", "c19_logged_record_agrees_and_is_redacted"])
+                reported = True
+            if not isinstance(d, dict):
+                chk.mark(("guardlog", repr(c["policy"]), repr(c["req"]), api, site, "raise"), False)
+                chk.count("guardlog:decision=raise")
+                continue
+            chk.count("guardlog:decision=%s/%s%s" % (d["effect"], d["reason"], "+obligations" if d["obligations"] else ""))
+            # ---- (ii) exactly one payload handed over, agreeing with the Decision; the bridge
+            if len(e["calls"]) != 1:
+                chk.violation("the Guard did not hand exactly one payload to its DecisionLogger for one evaluation (c11_audit_agrees, "
+                              "c19_bridge_payload_is_log_argument)" + where, case_v, impl={"calls": len(e["calls"]), "decision": d}, model=mp)
+                reported = True
+                continue
+            ent = e["calls"][0]
+            pl = ent["before"]
+            want = gl_fields_of(d)
+            if not isinstance(pl, dict) or any(f not in pl or not same(pl[f], want[f]) for f in GL_FIELDS):
+                chk.violation("the payload handed to the DecisionLogger disagrees with the returned Decision (c11_audit_agrees)" + where,
+                              case_v, impl={"decision": d, "payload": pl}, model=mp)
+                reported = True
+                continue
+            if not reported and mp is not None and not same(pl, mp):
+                chk.corr_break("the payload the Guard hands to its sink differs from Engine.audit_payload (build_env req) (guard_eval ...)"
+                               + where, case_v, impl=pl, model=mp,
+                               theorems=["c19_bridge_payload_is_log_argument", "c19_audit_payload_fields", "c11_audit_agrees"])
+                reported = True
+            msgs = [m for lv, m in ent["records"] if lv == level]
+            # ---- (iii) the record: the decision fields of the returned Decision, the keys of the payload; placeholders
+            viol = None
+            for msg in msgs[:1]:
+                rec = gl_parse_record(msg, as_json)
+                if rec is None:
+                    chk.count("guardlog:record-not-read-back(judged by its rendered tail)")
+                    try:
+                        tail = render({"env": 0, **want}, as_json).split("0", 1)[1]
+                    except Exception:  # noqa: BLE001
+                        tail = None
+                    if tail is not None and not msg.endswith(tail):
+                        viol = ("the decision fields of the emitted record are not those of the returned Decision "
+                                "(c19_logged_record_agrees_and_is_redacted, c11_logged_rule_id_truthful)")
+                    continue
+                if any(f not in rec or not same(rec[f], want[f]) for f in GL_FIELDS):
+                    viol = ("the decision fields of the emitted record are not those of the returned Decision "
+                            "(c19_logged_record_agrees_and_is_redacted, c11_logged_rule_id_truthful)")
+                elif set(rec) != set(pl):
+                    viol = "the emitted record does not carry exactly the keys of the audit payload (c19_logged_record_agrees_and_is_redacted)"
+                renv = rec.get("env")
+                full = isinstance(renv, dict) and not (renv.get("_truncated") is True and set(renv) == {"_truncated", "size_bytes"}) \
+                    and renv != {"_redaction_failed": True}
+                if viol is None and full:
+                    if kw.get("redactions") is None and bool(kw.get("use_default_redactions")):
+                        chk.count("guardlog:default-paths-judged")
+                        for p, ph in gl_default_ops():
+                            if _gl_get(renv, p.split(".")) != ("at", ph):
+                                viol = ("use_default_redactions=True: the record's env does not read %r at %s (c19_logged_default_redactions)"
+                                        % (ph, p))
+                                break
+                    elif kw.get("redactions"):
+                        ops = gl_simple_ops(kw["redactions"])
+                        if ops:
+                            chk.count("guardlog:explicit-disjoint-paths-judged")
+                            for keys, ph in ops:
+                                at = _gl_get(renv, keys)
+                                if at[0] != "at" or not same(at[1], ph):
+                                    viol = ("the record's env does not read the placeholder at the configured path %s "
+                                            "(c19_logged_placeholders_at_paths)" % ".".join(keys))
+                                    break
+                if viol is None and "expect_record" in c and msg != render(c["expect_record"], as_json):
+                    chk.corr_break("the emitted record differs from the record computed inside Coq (AuditRedact.ar_record, vm_compute)" + where,
+                                   case_v, impl=msg, model=render(c["expect_record"], as_json), theorems=["c19_audit_example"])
+                    reported = True
+            # ---- the application's request objects
+            if viol is None and not same(e["req_after"], gl_canon_req(c["req"])):
+                if in_place:
+                    chk.count("guardlog:in-place:application-request-objects-rewritten(shared below the first level: F24's class, C14)")
+                else:
+                    viol = ("redact_in_place=False but the request objects of the application (Subject / Resource / Context attrs) were "
+                            "modified by the audited evaluation (c19_caller_env_untouched_by_logging)")
+            if viol:
+                chk.violation(viol + where, case_v, impl={"decision": d, "msgs": msgs, "request_after": e["req_after"]},
+                              model={"decision": d_m, "payload": mp})
+                reported = True
+                continue
+            v = {**case_v, "payload": pl, "where": where}
+            g = {"draws": ent["draws"], "msgs": msgs, "debug": [m for lv, m in ent["records"] if lv == logging.DEBUG], "payload_after": ent["obj"],
+                 "env_same_object": isinstance(ent["obj"], dict) and ent["obj"].get("env") is ent["env_obj"],
+                 "top_ids_same": isinstance(ent["obj"], dict) and _ids(ent["obj"].get("env")) == ent["ids"]}
+            if "raised" in ent:
+                g["raised"] = ent["raised"]
+            views.append(v)
+            store[id(v)] = g
+    check_log(chk, views, cap, impl=lambda v, _cap: store[id(v)])
+
+
 def check_cases(chk, cases, replay=False):
     cases = [copy.deepcopy(c) for c in cases]
     resolve_bounds(cases)
@@ -1524,6 +2185,8 @@ def check_cases(chk, cases, replay=False):
             check_apply(chk, by["apply"])
         if by.get("log"):
             check_log(chk, by["log"], cap)
+        if by.get("guardlog"):
+            check_guardlog(chk, by["guardlog"], cap)
         if by.get("deep"):
             check_deep(chk, by["deep"], cap)
         if by.get("defaults") or not replay:
@@ -1555,7 +2218,15 @@ def run(chk):
                 "the calls (3 + 15 schedules) x 4 parking collaborators (handler without lock, handler holding its lock, handler "
                 "filter, logger filter) x sampling (mostly must-emit classes) x redaction configurations, and calls made by the "
                 "collaborator from inside the emission (same thread / Guard helper thread), judged on the multiset of emitted "
-                "records. non-trivial = a record was emitted and (the env held the secret, or a size bound, or "
+                "records; then the C11 x C19 composition (kind guardlog, AuditRedact.v): the real Guard(policy, logger_sink="
+                "DecisionLogger(**kwargs)) evaluated sequentially through evaluate_sync / evaluate_async / evaluate_sync under a "
+                "running loop, cold and (decision cache) as a hit: decision classes (plain permit, deny, permit with met / unknown "
+                "/ deny-targeted obligations, refused obligation, deny with obligations, no rule; single policy, set, nested set) "
+                "x the sampling grid, the priority grid, size bounds at exact size -2..+2, ill-typed specs, and random enggen / "
+                "polgen policies and requests, with the secret at the default redaction paths (read from the model) and "
+                "elsewhere; the Decision vs Engine.guard_eval and vs the same Guard without a sink, the payload handed over vs "
+                "Engine.audit_payload, the record vs Redact.log of that payload and vs the returned Decision. "
+                "non-trivial = a record was emitted and (the env held the secret, or a size bound, or "
                 "in-place redaction was configured) / the write changed the object / (conc) at least two records are expected "
                 "and the calls overlap or are nested; distinct = distinct input")
     chk.assumptions = [
@@ -1572,6 +2243,12 @@ def run(chk):
         "of Redact.log, as a multiset, whatever the interleaving; the payload of a Guard call is the one a sequential Guard "
         "hands to a recording sink (C11 judges it); the draw of a call is scripted per calling thread; each call has its own "
         "payload object; a hang (watchdog %.0f s) is reported as a note, not judged (deadlocks are C14's)" % WATCHDOG,
+        "kind guardlog: no role resolver, no relationship checker, built-in obligation checker; top-level single policies name "
+        "their algorithm (F12, judged by C17); the request objects are built afresh for every evaluation (in-place redaction "
+        "writes through the nested objects the env shares with the application's attrs: F24's class, C14, counted, not judged); "
+        "the sink is a real DecisionLogger whose bound log is wrapped on the instance by a recorder that delegates to it; "
+        "audit_payload / build_env are transcribed in the harness (gl_model_payload, polgen.env_of_req) from the engine model's "
+        "Decision and compared with the payload the Guard hands over before the latter is given to Redact.log",
     ]
     cases = corpus_cases()
     chk.extra["corpus_cases"] = len(cases)
@@ -1583,6 +2260,9 @@ def run(chk):
     conc = gen_conc_cases(chk)
     chk.extra["conc_cases"] = len(conc)
     cases += conc
+    gl = gen_guardlog_cases(chk)
+    chk.extra["guardlog_cases"] = len(gl)
+    cases += gl
     chk.exhaustive = True
     chk.notes.append("doc/code mismatch outside the statement: docs/logging.md and docs/audit_mode.md show "
                      "category_sampling_rates={'permit': 0.05} 'leaving deny/obligations at 1.0'; the code replaces the defaults by the "
